@@ -269,4 +269,32 @@ Finished == phase = "done"
 Allowed == Finished => err \in {NoErr, "CannotParse", "NoSuchOption", "ValueError"}
 LenientTotal == (Finished /\ lenient) => err \in {NoErr, "ValueError"}
 ScratchSane == \A i \in 1..Len(optsS) : HasOpt(fmt, optsS[i].k)
+
+\* ------------------------------------------------------------------ P-layer (C02): malformed lines, read off the line alone
+\* A token that starts with a dash is never taken as the value of an option, so every such token in front of the first
+\* "--" is an option token whatever surrounds it.  Three of the faults the statement names can therefore be recognised
+\* on the line itself, without following the scan (surplus / missing arguments need the scan: single-fault mutations).
+SepAt(ln) == IF \E i \in 1..Len(ln) : ln[i] = <<"-", "-">>
+             THEN CHOOSE i \in 1..Len(ln) : ln[i] = <<"-", "-">> /\ \A j \in 1..(i - 1) : ln[j] # <<"-", "-">>
+             ELSE Len(ln) + 1
+IsLongTok(t) == Len(t) > 2 /\ t[1] = "-" /\ t[2] = "-"
+IsShortTok(t) == Len(t) >= 2 /\ t[1] = "-" /\ t[2] # "-"
+LongName(t) == LET n == Drop(t, 2) IN IF PosEq(n) = 0 THEN n ELSE SubSeq(n, 1, PosEq(n) - 1)
+HasEq(t) == PosEq(Drop(t, 2)) # 0
+\* an option token whose name identifies no option of the format
+UsesUnknownOption(f, ln) == \E i \in 1..(SepAt(ln) - 1) :
+   \/ IsLongTok(ln[i]) /\ ~HasOpt(f, LongName(ln[i]))
+   \/ IsShortTok(ln[i]) /\ ~HasOpt(f, <<ln[i][2]>>)
+\* --flag=value for an option that takes no value
+GivesValueToFlag(f, ln) == \E i \in 1..(SepAt(ln) - 1) :
+   IsLongTok(ln[i]) /\ HasEq(ln[i]) /\ HasOpt(f, LongName(ln[i])) /\ ~Accepts(Opt(f, LongName(ln[i])))
+\* --name (value required) followed by nothing, by an empty token or by a token that starts with a dash; or --name=
+OmitsRequiredValue(f, ln) == \E i \in 1..(SepAt(ln) - 1) :
+   /\ IsLongTok(ln[i]) /\ HasOpt(f, LongName(ln[i])) /\ Opt(f, LongName(ln[i])).mode \in {"req", "multi"}
+   /\ IF HasEq(ln[i]) THEN Drop(ln[i], 2 + PosEq(Drop(ln[i], 2))) = <<>>
+      ELSE i = Len(ln) \/ ln[i + 1] = <<>> \/ StartsDash(ln[i + 1])
+MalformedOnItsFace(f, ln) == UsesUnknownOption(f, ln) \/ GivesValueToFlag(f, ln) \/ OmitsRequiredValue(f, ln)
+ScanErrors == {"CannotParse", "NoSuchOption"}
+\* the model itself rejects every such line in strict mode (consistency of the P-predicates with the A-layer)
+MalformedRejected == (Finished /\ ~lenient /\ MalformedOnItsFace(fmt, line)) => err \in ScanErrors
 =============================================================================
